@@ -116,12 +116,14 @@ CHECKS += [
               "index-only-must-not-return rule).",
          note=E2_NOTE + " Bodies record through Python callbacks (AnnotatedQueue does not record under CrossHair's tracer). Outside: program capture, qp.cond on measurement values (state-level: C21).",
          technique="CrossHair symbolic execution (z3) of the real control-flow callables against plain Python loops, confirmed over all paths within stated bounds"),
-    dict(property_id="C16", category="proof", engine=E5,
+    dict(property_id="C16", category="other", engine=E5,
          text="The real ZSqrtTwo and ZOmega methods run on z3 integers: commutativity, associativity, distributivity, identities, negation, integer "
               "scalars, conj/adj2 as involutive automorphisms, norm multiplicativity, powers, exact division, to_omega/from_sqrt_pair homomorphisms, "
               "== semantics, sqrt() (via the exact isqrt specification), ZOmega.normalize are proved as polynomial integer identities for ALL "
               "coefficient values (no bound, except |coeff|<=6 for normalize). CrossHair: _primality_test == trial division confirmed for 0..300; "
               "bounded counterexample search for DyadicMatrix +/@ exactness/associativity/distributivity, % congruence, primality up to 12000. "
+              "Category 'other': on this machine every obligation of both tiers is discharged, but the CrossHair part runs under per-condition time budgets and one condition came back "
+              "inconclusive on a slower machine (check request 5); a timeout is reported as inconclusive, never as success. "
               "(The real tail of _solve_diophantine with its factoring subroutines stubbed by arbitrary ring elements was tried in the thorough tier with 10 and 40 minute budgets; its path "
               "exploration does not finish and it is stated as outside.)",
          note=E5_NOTE + "Shims: `int` and `math` in the rings module namespace (int(x) keeps symbols; isqrt by specification). Outside: float code paths for coefficients >= 2^53, ZSqrtTwo.__mod__ neighbour search, SO3Matrix, Pollard/Miller-Rabin loops beyond the bounds.",
